@@ -26,7 +26,8 @@ def configs(tier, seed):
   i = 0
   for mx in (1, 2, 3, 4, 5, 6):
     for st in (sts if tier == 'thorough' else [sts[i % 6]]):
-      cfgs.append(dict(name='cache/max%d/%s' % (mx, st), mode='cache', max=mx, strategy=st))
+      for w in range(2 if tier == 'quick' else 4):
+        cfgs.append(dict(name='cache/max%d/%s/w%d' % (mx, st, w), mode='cache', max=mx, strategy=st))
     i += 1
   for mq in (2, 4, 10):
     for low in ((0.25, 0.5, 0.8, 1.0) if tier == 'thorough' else (0.5, 0.8)):
@@ -123,7 +124,7 @@ def run_cache(cfg, res):
     fn = frame.f_code.co_filename
     return fn.endswith('events.py') or frame.f_code.co_name in ('_check_available_space', 'pop', '_pop', 'drain_metric')
 
-  for w in range(2 if cfg['tier'] == 'quick' else 5):
+  for w in range(1):
     ops = []
     nm = 0
     for c in range(r.randint(3, 7)):
@@ -195,7 +196,7 @@ def run_cache(cfg, res):
       if m > 0:
         for j in sorted(set(r.randrange(d + 1, hi.decisions + 2) for _ in range(min(take, m)))):
           one(S.DeviationPolicy({d: 1, j: 1}), 'preempt@%d,%d' % (d, j))
-    for _ in range(150 if cfg['tier'] == 'quick' else 1500):
+    for _ in range(100 if cfg['tier'] == 'quick' else 1500):
       c = r.random()
       if c < 0.6:
         one(S.TargetedPolicy(gen.rng(r.random(), 'tp'), hot, p_hot=r.choice([0.3, 0.5, 0.7]), p_cold=r.choice([0.01, 0.05])), 'targeted')
